@@ -8,7 +8,7 @@
    sat-level statement ("Index::find(sat) returns the same satpoint") is only tied by correspondence and by
    the oracle (see props/C03.json). *)
 From OrdV Require Import Base.Prelude Generated Index.Inscr Proofs.Inscr_tables Proofs.Inscr_proofs
-  Proofs.Inscr_c06 Proofs.Inscr_c04 Proofs.Inscr_c03 Proofs.Inscr_sats.
+  Proofs.Inscr_c06 Proofs.Inscr_c04 Proofs.Inscr_c03 Proofs.Inscr_sats Proofs.Inscr_satinv.
 From Coq Require Import Permutation.
 
 (* (1) old inscriptions of an input keep their place inside it: offset in the transaction = value of the
@@ -105,6 +105,44 @@ Proof.
   intros outs rs per_out lft H. destruct (split_sats_spec _ _ _ _ H) as [A B]. split; [exact A | exact B].
 Qed.
 
+(* (9) THE property, at the sat level, for whole chains.  With the sat index on and inscriptions indexed from
+   height 0 (regtest, testnet4), for every chain in which the first transaction of each block is a coinbase,
+   no other transaction has a null input, inputs name real outputs (txid not all-zero) and no txid is all-zero:
+   whenever indexing succeeds, every inscription that has a sat and is listed by an output - a real one or the
+   lost-sats pseudo-output - at offset off has, at offset off of that output's sat ranges, exactly its sat
+   (calc_sat_in walks the ranges like Index::find and Index::list do).  Together with C02 (sat ranges of
+   different outputs are disjoint) this is Index::find(sat) = reported satpoint. *)
+Theorem C03_location_is_sat_location : forall cfg c st,
+  c_sats cfg = true -> c_first cfg = 0 -> Forall block_ok3 c ->
+  index_chain cfg 0 c empty_state = Ok st ->
+  forall op u, tget pair_eqb op (s_utxo st) = Some u -> op <> unbound_op ->
+  forall s off, In (s, off) (u_insc u) ->
+  forall e n, tget N.eqb s (s_entries st) = Some e -> i_sat e = Some n ->
+    calc_sat_in (u_ranges u) 0 off = Ok n.
+Proof. intros cfg c st HS HF. exact (sat_invariant cfg HS HF c st). Qed.
+
+(* non-vacuity: a reveal whose second envelope points into the second output, then a transfer that swaps the
+   two outputs into one; both inscriptions still sit on their sats *)
+Definition c03_env (p : option N) : envelope := mkEnv 0 0 false false false false false (match p with Some _ => true | None => false end) p false [].
+Definition c03_chain : list block :=
+  [ [mkTx 1 [null_op] [mkOut 5000000000 false] []];
+    [mkTx 2 [null_op] [mkOut 5000000000 false] []];
+    [mkTx 3 [null_op] [mkOut 5000000000 false] [];
+     mkTx 4 [(2, 0)] [mkOut 1000 false; mkOut 4999999000 false] [c03_env None; mkEnv 0 1 false false false false false true (Some 1500) false []]];
+    [mkTx 5 [null_op] [mkOut 5000000100 false] [];
+     mkTx 6 [(4, 1); (4, 0)] [mkOut 4999999900 false] []] ].
+
+Example C03_sat_nonvacuous :
+  Forall block_ok3 c03_chain /\
+  exists st, index_chain (cfg_of 0 true) 0 c03_chain empty_state = Ok st /\
+    map (fun kv => i_sat (snd kv)) (s_entries st) = [Some 5000000000; Some 5000001500] /\
+    tget pair_eqb (6, 0) (s_utxo st) = Some (mkU 0 [(5000001000, 10000000000); (5000000000, 5000000900)] [(1, 500); (0, 4999999000)]).
+Proof.
+  split.
+  - unfold c03_chain, block_ok3, tx_ok3, tx_cb, tx_plain, ins_real. repeat constructor; cbn; try discriminate; auto.
+  - eexists. split; [vm_compute; reflexivity|]. split; reflexivity.
+Qed.
+
 (* Non-vacuity of (3): offsets 5, 0, 12, 30 over outputs of 10 and 15 (the second an OP_RETURN): 0 and 5 land
    in output 0, 12 in output 1 at offset 2, 30 is left over. *)
 Example C03_nonvacuous :
@@ -122,3 +160,4 @@ Print Assumptions C03_lost_offsets.
 Print Assumptions C03_new_inscription.
 Print Assumptions C03_old_burned.
 Print Assumptions C03_sats_fifo.
+Print Assumptions C03_location_is_sat_location.
